@@ -610,3 +610,13 @@ Definition import_text (r : text_route) (text : bytes) : key * bool :=
   | RtEntryArg => import_from_bytes text                  (* _normalize_key(key) *)
   | RtEntryCallable => import_from_bytes text             (* _normalize_key(key(obj)) *)
   end.
+
+(* ---------- histories on ONE key object ---------- *)
+(* A Key object carries no state that the gates read: check_key_op / get_op_key look at
+   the key's parameters and the operation only.  A history is the list of operations
+   performed, in order, on the same object; the model answers each of them with the
+   stateless gate. *)
+Definition op_verdict (k : key) (op : string) : res unit :=
+  do _ <- get_op_key op k; Ok tt.
+Definition run_history (k : key) (ops : list string) : list (res unit) :=
+  map (op_verdict k) ops.
